@@ -24,3 +24,31 @@ CONFIG["C13"] = {
     "exhaustive_claim": "naturals 1..2^16 (quick) / 2^22 (thorough), +-64 around every power of two up to 2^31, all 1-2 (3) byte strings, all window ranges of slices up to 5 (9) bytes",
     "assumptions": COMMON_ASSUMPTIONS + ["byte streams are whole bytes: a 'truncated' stream is one cut at a byte boundary"],
 }
+
+CONFIG["C10"] = {
+    "budget_s": {"quick": 90, "thorough": 1200},
+    "floor": {"quick": 20000, "thorough": 500000},
+    "rule": ("a case is a random finalized type (grammar 1 | A+B | A*B | 2^(2^n) | option | buffer8 | ctx8, three size classes), a random (or all-left / all-right) "
+             "abstract value of it and one of seven production histories (constructor tree, integer constructors, from_compact_bits, from_padded_bits with "
+             "ones/random bits in every padding position, sub-value extraction through as_left/as_right/as_product from a larger value, extraction from a "
+             "decoded all-ones buffer, prune from a larger type). The library value is compared with the model: type, compact bits exactly, padded bits on all "
+             "non-padding positions, lengths, bits consumed when re-decoding both encodings (with trailing junk), accessors on the value and after re-wrapping "
+             "it with left/right/product, to_word, and prune to equal / smaller (one and two steps) / path-incompatible / larger targets against the model projection. "
+             "'offsets-enumerated' places the value behind prefixes of 0..=8 bits under three histories. 'tiny-types-exhaustive' enumerates every type with "
+             "<=3 (thorough 4) constructors, every value and every history. Non-trivial: type width > 0; distinct: distinct (value,type,history) renderings."),
+    "exhaustive_claim": "all types with at most 3 (thorough: 4) sum/product constructors x all their values x all 7 histories; bit offsets 0..8 per sampled value",
+    "assumptions": COMMON_ASSUMPTIONS + ["Value::== is never used as an oracle here; values are read through iter_compact/iter_padded and their Final"],
+}
+
+CONFIG["C11"] = {
+    "budget_s": {"quick": 90, "thorough": 1200},
+    "floor": {"quick": 5000, "thorough": 200000},
+    "rule": ("a case is a random type and abstract value realised through all eight histories (the seven of C10 plus Bit Machine output of a scribe program run "
+             "after a frame filled with ones/0xAA/random bits was released, so sum padding of the output is dirty); all pairs (and each with itself) must be ==, "
+             "hash equally (DefaultHasher) and cmp Equal, as Value and, for word types, as Word; a different value of the same type realised through all histories "
+             "must be != with an antisymmetric, history-independent order; a random triple must sort into a chain; the same bits at type 1*T must differ. "
+             "'tiny-types-exhaustive' does this for every type with <=3 (thorough 4) constructors and all of its values. Non-trivial: width > 0."),
+    "exhaustive_claim": "all types with at most 3 (thorough: 4) constructors x all value pairs x all 8x8 history pairs",
+    "assumptions": COMMON_ASSUMPTIONS + ["each history is first checked to denote the intended abstract value (through compact/padded bits), so a failure here is a failure of the comparison traits"],
+    "counter_floors": {"quick": {"history.machine-output-dirty-frame": 1000}, "thorough": {"history.machine-output-dirty-frame": 20000}},
+}
